@@ -45,6 +45,7 @@ type Result struct {
 	StateSigs  []string `json:"-"`
 	Wall       time.Duration
 	Leaked     []string
+	Remaining  []string // goroutines of the bubble still alive after teardown
 	Internal   string // harness-internal error (exit 2 material)
 }
 
@@ -110,6 +111,9 @@ func (w *World) run(opt RunOptions, res *Result) {
 	down := map[int]bool{}
 	for _, d := range w.Cfg.Down {
 		down[d] = true
+	}
+	for _, b := range w.Cfg.Blackhole {
+		w.net.SetBlackhole(addrOf(b), true)
 	}
 	for i := 0; i < w.Cfg.NServers; i++ {
 		s := &Server{Idx: i, Addr: addrOf(i), ID: nodeID(i)}
@@ -194,6 +198,9 @@ func (w *World) run(opt RunOptions, res *Result) {
 	res.Calls = len(w.calls) - 1
 	res.Panics = w.sched.TakePanics()
 	res.LogHash = w.logHash()
+	if w.internal != "" {
+		res.Internal = w.internal
+	}
 	res.SchedSig, res.Nontrivial = w.schedSignature(mainSteps)
 	if opt.KeepEvents {
 		res.Events = append([]Event(nil), w.events...)
@@ -367,6 +374,16 @@ func (w *World) teardown(res *Result) {
 	time.Sleep(10 * time.Minute)
 	synctest.Wait()
 	res.Leaked = w.sched.Live()
+	w.sched.Kill()
+	time.Sleep(5 * time.Second)
+	synctest.Wait()
+	for _, g := range goroutines() {
+		top := ""
+		if len(g.Frames) > 0 {
+			top = shortFn(g.Frames[0])
+		}
+		res.Remaining = append(res.Remaining, fmt.Sprintf("%s in %s lib=%s created-by=%s", g.State, top, g.Lib, shortFn(g.Created)))
+	}
 	w.sched.Stop()
 }
 
